@@ -471,11 +471,20 @@ func (m *RegistryMonitor) OnBlock(h *History, b *Block, txs []*GenTx, ref *Block
 	// (a) every current key of every node resolves to that node; keys unique.
 	owner := map[signature.PublicKey]signature.PublicKey{}
 	byEntity := map[signature.PublicKey][]signature.PublicKey{}
+	// A node's identity key is one of its keys too: no other node may use it as a sub-key.
+	for _, n := range nodes {
+		owner[n.ID] = n.ID
+	}
 	for _, n := range nodes {
 		byEntity[n.EntityID] = append(byEntity[n.EntityID], n.ID)
 		for kind, k := range subKeys(n) {
 			if o, dup := owner[k]; dup && o != n.ID {
-				viol("key-associated-with-two-nodes/"+kind, fmt.Sprintf("public key %s is used by nodes %s and %s", k, o, n.ID), nil)
+				if o == k {
+					// k is the identity key of node o and a sub-key of node n
+					viol("key-associated-with-two-nodes/identity-key-of-another-node-as-sub-key", fmt.Sprintf("public key %s is the identity key of one registered node and the %s key of node %s", k, kind, n.ID), nil)
+				} else {
+					viol("key-associated-with-two-nodes/"+kind, fmt.Sprintf("public key %s is used by nodes %s and %s", k, o, n.ID), nil)
+				}
 			}
 			owner[k] = n.ID
 			got, err := rs.NodeBySubKey(ctx, k)
